@@ -67,7 +67,14 @@ func c02Specs(tier string) []*Spec {
 		specs = append(specs, &Spec{Weight: 16, ID: "C02", Name: name, Cfg: cfg, Keys: bs("a", "b"), Vals: bs("x", "y"), MaxDepth: depth, MaxMaint: 1,
 			Alphabet: redo.Ops, Oracles: []Oracle{oracleHashes()}})
 	}
+	// idempotent re-commits of an existing version
+	addResave := func(name string, cfg Cfg, depth int) {
+		a := Alpha{Writes: true, Save: true, LoadVersion: true, MaxVersions: 3}
+		specs = append(specs, &Spec{Weight: 8, ID: "C02", Name: name, Cfg: cfg, Keys: bs("a"), Vals: bs("x", "y"), MaxDepth: depth, MaxMaint: 1,
+			Alphabet: a.Ops, Oracles: []Oracle{oracleHashes()}})
+	}
 	if tier == "quick" {
+		addResave("resave/1key/d9", defaultCfg, 9)
 		addRedo("redo/cache1000-nofast/2keys/d8", Cfg{Fast: false, Cache: 1000}, 8)
 		addRedo("redo/cache1000/2keys/d8", Cfg{Fast: true, Cache: 1000}, 8)
 		addHQ(7)
@@ -92,6 +99,8 @@ func c02Specs(tier string) []*Spec {
 		return specs
 	}
 	addHQ(9)
+	addResave("resave/1key/d11", defaultCfg, 11)
+	addResave("resave-cache1000/1key/d10", Cfg{Fast: true, Cache: 1000}, 10)
 	addRedo("redo/cache1000-nofast/2keys/d12", Cfg{Fast: false, Cache: 1000}, 12)
 	addRedo("redo/cache1000/2keys/d12", Cfg{Fast: true, Cache: 1000}, 12)
 	addRedo("redo/cache2-nofast/2keys/d11", Cfg{Fast: false, Cache: 2}, 11)
